@@ -123,3 +123,8 @@ def real_child():
     for p in mp.active_children():
         p.kill()
     print(json.dumps({'n': n, 'durations': durations, 'children_left': left}))
+
+
+def replay_one(case, violation):
+    cfg = {'recycle': case['recycle'], 'timeout': case['timeout'], 'keep': False}
+    return Q.replay_schedule(tuple(case['vec']), cfg, tuple(case['consumer']), violation['schedule'], ('liveness', 'verdicts'))
